@@ -313,22 +313,100 @@ def _set_core(core):
     _core_set[0] = core
 
 
+PORTFOLIO_AFTER_MS = int(os.environ.get("VF_Z3_PORTFOLIO_AFTER_MS", "8000"))
+STATS = {"portfolio": 0, "won_by_euf": 0, "won_by_default": 0}
+
+
 def check(solver_assumptions, goal, timeout_ms=120000):
-    _set_core(SOLVER_CORE)
-    r = _check(solver_assumptions, goal, timeout_ms)
-    if r[0] == "unknown" and SOLVER_CORE == "default" and os.environ.get("VF_Z3_FALLBACK", "1") == "1":
-        # the default core gave up within its budget: ask the SAT/EUF core before answering "inconclusive"
+    """decide (assumptions and goal).  Core selection:
+    default (SOLVER_CORE == "default"): the default core alone for a short budget; if it has not answered, a two-core
+    portfolio for the full budget -- the default core in this process and the SAT/EUF core in a forked child, first
+    definite answer wins (neither core dominates on the heap encodings: each decides in a minute what the other
+    does not decide in ten).  "euf": the SAT/EUF core only."""
+    if SOLVER_CORE == "euf":
         _set_core("euf")
-        r2 = _check(solver_assumptions, goal, timeout_ms)
-        _set_core(SOLVER_CORE)
-        return (r2[0], r[1] + r2[1], r2[2])
-    if SOLVER_CORE == "euf" and CROSS_CHECK and r[0] == "unsat":
+        r = _check(solver_assumptions, goal, timeout_ms)
+        if CROSS_CHECK and r[0] == "unsat":
+            _set_core("default")
+            r2 = _check(solver_assumptions, goal, min(timeout_ms, 120000))
+            _set_core("euf")
+            if r2[0] == "sat":
+                raise RuntimeError("z3 cores disagree: euf core says unsat, default core says sat")
+        return r
+    _set_core("default")
+    if os.environ.get("VF_Z3_FALLBACK", "1") != "1":
+        return _check(solver_assumptions, goal, timeout_ms)
+    first = min(timeout_ms, PORTFOLIO_AFTER_MS)
+    r = _check(solver_assumptions, goal, first)
+    if r[0] != "unknown" or first >= timeout_ms:
+        return r
+    r2 = _portfolio(solver_assumptions, goal, timeout_ms)
+    return (r2[0], r[1] + r2[1], r2[2])
+
+
+def _portfolio(solver_assumptions, goal, timeout_ms):
+    import signal
+    import threading
+    STATS["portfolio"] += 1
+    t0 = time.time()
+    rd, wr = os.pipe()
+    pid = os.fork()
+    if pid == 0:                      # child: the SAT/EUF core on a copy of the formula
+        try:
+            os.close(rd)
+            _set_core("euf")
+            res = _check(solver_assumptions, goal, timeout_ms)[0]
+            os.write(wr, res.encode())
+        except BaseException:
+            pass
+        finally:
+            os._exit(0)
+    os.close(wr)
+    box = {"child": None, "parent_done": False}
+
+    def waiter():
+        try:
+            data = os.read(rd, 16).decode()
+        except OSError:
+            data = ""
+        box["child"] = data
+        if data in ("sat", "unsat") and not box["parent_done"]:
+            z3.main_ctx().interrupt()
+    th = threading.Thread(target=waiter, daemon=True)
+    th.start()
+    try:
         _set_core("default")
-        r2 = _check(solver_assumptions, goal, min(timeout_ms, 120000))
-        _set_core(SOLVER_CORE)
-        if r2[0] == "sat":
-            raise RuntimeError("z3 cores disagree: euf core says unsat, default core says sat")
-    return r
+        r = _check(solver_assumptions, goal, timeout_ms)
+        box["parent_done"] = True
+        if r[0] in ("sat", "unsat"):
+            STATS["won_by_default"] += 1
+            return r
+        th.join(timeout=max(1.0, timeout_ms / 1000.0 - (time.time() - t0) + 5))
+        child = box["child"]
+        if child == "unsat":
+            STATS["won_by_euf"] += 1
+            return ("unsat", time.time() - t0, None)
+        if child == "sat":
+            # a model is needed in this process: run the winning core here
+            STATS["won_by_euf"] += 1
+            _set_core("euf")
+            r2 = _check(solver_assumptions, goal, timeout_ms)
+            _set_core("default")
+            return (r2[0], time.time() - t0, r2[2])
+        return ("unknown", time.time() - t0, None)
+    finally:
+        try:
+            os.kill(pid, signal.SIGKILL)
+        except OSError:
+            pass
+        try:
+            os.waitpid(pid, 0)
+        except OSError:
+            pass
+        try:
+            os.close(rd)
+        except OSError:
+            pass
 
 
 def _check(solver_assumptions, goal, timeout_ms=120000):
